@@ -71,7 +71,21 @@ pub fn run(ctx: &Ctx, rep: &mut Report) {
         let stranger = u.principal();
         let proxy = u.env.register(Proxy, ());
         u.skip_events();
+        let mut window = false;
         for _ in 0..14 {
+            // now and then the gateway is upgraded to the same code; the migration follows a few calls
+            // later. While the window is open a valid call may be refused; one that succeeds must be
+            // announced like any other
+            if !window && rng.chance(1, 12) {
+                if u.upgrade_only(&g.addr.clone()).is_ok() {
+                    window = true;
+                    rep.count("migration-window-opened");
+                }
+            } else if window && rng.chance(1, 3) {
+                let _ = u.migrate_only(&g.addr.clone(), &[]);
+                window = false;
+                rep.count("upgrade-and-migrate");
+            }
             let sender_class = *rng.pick(&SENDERS);
             let len = if rng.chance(1, 12) || (sender_class.starts_with("account-auth-other") && rng.chance(1, 2)) { *rng.pick(&LENS) } else { *rng.pick(&LENS[..9]) };
             let payload = rng.bytes(len);
@@ -143,6 +157,10 @@ pub fn run(ctx: &Ctx, rep: &mut Report) {
             if let Some(l) = &o.leak {
                 rep.violation(&format!("refused-call-left-trace:{}", sender_class), l.clone());
                 break;
+            }
+            if window && must_ok && !o.ok() {
+                rep.count("note:valid-request-refused-while-migration-window-open");
+                continue;
             }
             if o.ok() != must_ok {
                 rep.violation(
